@@ -26,34 +26,39 @@ MODELLED = [
     "functools.lru_cache on marginal_tail_integral: modelled as a pure memo (exercised by re-evaluating shuffled rectangles)",
     "inverse_tail_integral (scipy toms748): not modelled, implementation round trip U(U^-1(y)) = y in the oracle only",
     "joint density (nquad of the Clayton mixed derivative x marginal densities): implementation oracle only (thorough tier)",
-    "copula values at vectors whose entries are all infinite (code returns +-inf): outside the model; reached only by rectangles "
-    "that contain the origin",
+    "copula values at vectors whose entries are all infinite (code returns +-inf): reached only by rectangles whose every coordinate "
+    "touches 0 (origin in the closure) -- outside the property; indep_x / dep_x model those values exactly (C11)",
 ]
 ASSUMPTIONS = [
-    "UI_inf: a tail integral with an infinite coordinate is 0 -- holds for margin_tail_integral because U_i(+-inf) = 0 and the copula "
-    "is grounded (C11_grounded); monitored on the implementation by the margin-consistency oracle",
-    "UI_one: the {i}-margin is the marginal tail integral (margin_tail_integral's len(indices)==1 branch)",
-    "C12_nonneg_*: hypotheses copula2_ok / copula3_ok (grounded, d-increasing on (-inf,inf]^d, uniform margins) are what C11 proves "
-    "of the independent / dependent / Clayton copulas; tails_ok (U_i(+-inf)=0, U_i non-increasing on each side of 0) holds for "
-    "tail integrals of a non-negative measure (C09: masses are integrals of a non-negative density)",
-    "distinct indices in an index list (NoDup): the code's callers pass subsets of range(d)",
+    "block 1 (abstract family): UI_inf (a tail integral with an infinite coordinate is 0) and UI_one (the {i}-margin is the marginal tail "
+    "integral), both only for VALID index lists (NoDup, entries < d) and matching lengths -- PROVED for margin_tail_integral in "
+    "C12_modelled_family from groundedness (C11) and V_i(+-inf) = 0",
+    "C12_nonneg_*: tails_ok V (V_i(+-inf) = 0, V_i non-increasing in the extended order on each side of 0; V may be +inf at 0) and "
+    "fin_side (some coordinate interval does not straddle 0 and has finite tail integrals at both ends: any interval away from 0, or any "
+    "non-straddling interval of a finite-activity margin); copula2_ok / copula3_ok are THEOREMS for the three copulas (C11)",
+    "scope of the property on the implementation: rectangles with at least one coordinate interval whose closure does not contain 0; a "
+    "rectangle touching 0 in every coordinate has the origin in its closure (possibly infinite mass, inf - inf in floats) and is only counted",
 ]
 THEOREM_NOTES = {
-    "C12_inverse_tail_partial": "not a theorem: inverse_tail_integral is a bracketing root search, covered by the implementation "
-                                "oracle only",
+    "C12_inverse_tail_partial": "not a theorem: inverse_tail_integral is a bracketing root search, covered by the implementation oracle only",
     "C12_density": "not a theorem: equality with the integral of the implied joint density is checked numerically (thorough tier)",
-    "F-C12-1": "before commit b80a637 (`a < 0 < b`) the rectangle (a,0] x S got a negative mass; the theorems are about the repaired "
-               "test `a < 0 <= b`; the oracle sweeps rectangles with end point 0",
+    "F-C12-1 / F-C12-2": "fixed in /repo (f5cd713, 5ccfc9d); the oracle keeps sweeping end points 0 and infinite-activity margins",
+    "F-C12-3": "known: with an infinite-activity margin a lower end point 0 is treated as closed (U_i(0) = +inf): the independent copula gives "
+               "(0,b] x S the axis mass; the oracle compares the independent copula with its TRUE mass (measure on the axes) on every in-scope "
+               "rectangle and matches_known absorbs exactly this pattern",
 }
-LEVEL_TEXT = ("Proof: 7 Coq theorems about the py2coq-generated _mass_1d/_mass_2d/_mass_3d (one generated term, instantiated over "
-              "extended reals for the proofs and over extended rationals to run): for every rectangle that does not contain the origin "
-              "(each coordinate negative, positive or straddling zero, finite or infinite end points) the hard-coded 2-d and 3-d "
-              "formulas equal the general recursion _mass_nd; splitting any coordinate at any point, zero included, preserves the "
-              "mass; letting a coordinate range over the whole line gives the mass of the remaining sub-family (down to the marginal "
-              "tail integrals); the mass is non-negative for every copula that is grounded, d-increasing and has uniform margins, "
-              "d = 2 and 3. The model is re-translated from /repo on every run and, together with the hand model of _mass_nd and of "
-              "the tail integrals, compared exactly with the implementation on dyadic step margins x {independent, dependent} copulas "
-              "over all sign patterns / infinite end points / index subsets, and within 1e-9 on Clayton x HEM/Merton/CGMY/VG. "
+LEVEL_TEXT = ("Proof: 11 Coq theorems about the py2coq-generated _mass_1d/_mass_2d/_mass_3d (one generated term, instantiated over extended "
+              "reals for the proofs and over extended rationals to run). For every rectangle that does not contain the origin (each coordinate "
+              "negative, positive or straddling zero, finite or infinite end points) and every valid index list the hard-coded 2-d and 3-d "
+              "formulas equal the general recursion _mass_nd; splitting any coordinate at any point, zero included, preserves the mass; letting "
+              "a coordinate range over the whole line gives the mass of the remaining sub-family. The two hypotheses on the tail-integral "
+              "family are proved for the family the code builds (margin_tail_integral) from any grounded copula and tails vanishing at "
+              "infinity, so these results hold without hypotheses for the independent, dependent and Clayton copulas. The mass is "
+              "non-negative for every Levy copula in the sense of C11 -- in particular, by theorem, for the three copulas in d = 2 and 3 -- "
+              "with extended-valued marginal tails (U_i(0) = +inf for infinite activity), whenever some coordinate interval does not straddle 0 "
+              "and has finite tails at its ends. Tie: exact vm_compute correspondence on dyadic step margins x {independent, dependent} over "
+              "all sign patterns / infinite end points / index subsets; Clayton + margin + mass computed end to end in Coq (Interval, 1e-9) "
+              "on step margins; table-fed 1e-9 comparison on HEM/Merton/CGMY/VG; the independent copula is compared with its true mass. "
               "Partial: inverse tail integral and equality with the joint-density integral are oracle checks only.")
 LEVEL_NOTE = ("Trusted: Coq kernel + vm_compute, standard real-number axioms; py2coq + plug-in py2coq_ext_copula (fail-closed, "
               "cross-checked by running the generated term against the implementation); numpy/lru_cache semantics; the hypotheses "
@@ -298,21 +303,24 @@ def _indep_truth(res, model, idxs, a, b, got, desc, infinite_activity, exact, vi
     res.count(("indep-truth", str(desc.get("margins")), tuple(a), tuple(b), tuple(idxs)), kind="independent copula: true mass")
     ok = (got == truth) if exact else close(got, truth, max(1e-3, abs(truth)))
     if not ok:
-        zero_inf = any(x == 0 and infinite_activity[idxs[j]] for j, x in enumerate(a))
-        viol("independent copula: rectangle mass differs from the true mass (measure concentrated on the axes)", kind="indep_truth",
+        zero_inf = any((x == 0 or y == 0) and infinite_activity[idxs[j]] for j, (x, y) in enumerate(zip(a, b)))
+        viol("independent copula: rectangle mass differs from the true mass (measure concentrated on the axes)"
+             + (" -- end point 0 on an infinite-activity margin" if zero_inf else ""), kind="indep_truth",
              finding="F-C12-3" if zero_inf else None, expected=truth, got=got, marginal_mass=marg, zero_on_infinite_activity=zero_inf, **desc)
 
 
 def matches_known(v, known):
-    """F-C12-3 absorbs ONLY: independent copula, a lower end point exactly 0 on an infinite-activity margin (U_i(0) = +inf, the end
-    point is then treated as closed), true mass 0, and the implementation returning the marginal mass of the one coordinate that is
-    away from 0.  Every other mismatch with the true mass is new."""
+    """F-C12-3 absorbs ONLY: independent copula, an end point exactly 0 on an infinite-activity margin (U_i(0) = +inf: the half-line
+    (0, inf) then carries the axis mass), where the implementation moves the axis mass nu_k(S) from the piece (a_i, 0] x S (true mass
+    nu_k(S), returned 0) to the piece (0, b_i] x S (true mass 0, returned nu_k(S)).  Every other mismatch with the true mass is new."""
     r = v["replay"]
     if known.get("id") != "F-C12-3" or r.get("kind") != "indep_truth" or r.get("copula") != ["indep"]:
         return False
-    if not r.get("zero_on_infinite_activity") or r.get("expected") != 0.0 or r.get("marginal_mass") is None:
+    if not r.get("zero_on_infinite_activity") or r.get("marginal_mass") is None:
         return False
-    return close(float(r["got"]), float(r["marginal_mass"]), max(1e-3, abs(float(r["marginal_mass"]))))
+    got, exp, marg = float(r["got"]), float(r["expected"]), float(r["marginal_mass"])
+    tol = max(1e-3, abs(marg))
+    return (exp == 0.0 and close(got, marg, tol)) or (got == 0.0 and close(exp, marg, tol))
 
 
 def _tail_table(model, idxs, a, b):
